@@ -15,7 +15,7 @@ LEVEL_TEXT = ("Runtime monitoring with a metamorphic oracle: every generated con
 LEVEL_NOTE = "Trusted: floating-point rescaling of the inputs perturbs them by <= 1 ulp each; tolerance 1e-9 leaves >3 decades over the measured 1e-13."
 TECHNIQUE = "runtime monitoring: metamorphic relation (length rescaling, index rescaling) between recorded executions of the real solvers"
 RULE = ("configs from 11 (scatterer, theory) kinds; scale factor L = 10^u, u uniform in [-4,4], every third case an exact "
-        "power of ten; non-trivial = scattered field not identically zero; distinct by rounded case JSON")
+        "power of ten, two in seven the units in use (1e-6, 1e-9, 1e6) or the neighbouring powers of TWO (exact rescaling: judged at 1e-10 for every solver); cross sections for single spheres and clusters; non-trivial = scattered field not identically zero; distinct by rounded case JSON")
 ASSUMPTIONS = ["cross sections are compared for the theories that implement them (Mie, Multisphere)"]
 MIN_NONTRIVIAL = 20
 REQUIRED_COUNTERS = ["calc_holo", "calc_field", "calc_scat_matrix", "calc_cross_sections"]
